@@ -181,4 +181,200 @@ theorem resolve_errors (env : Env) :
                     (ih r.root (r.td :: r.scope) tt _ (type_not_scope (kw_of_one htt)) hbase')
                     (hmem h)
 
+/-- What a resolved type `y` shows of a derivation chain (nearest first) ending in the built-in
+`kind`: the base kind; units and default of the nearest typedef that states them; the path of the
+nearest type statement that states one; exactly the patterns of all type statements of the chain;
+the enum (bit) table the resolve loop builds from the members of the nearest type statement that
+lists any (which values that table holds is property C14); the fraction-digits of the nearest type
+statement that states them (read by `asRangeInt(1, 18)`, property C15). -/
+def Inherits (y : YType) (kind : String) (chain : List Link) : Prop :=
+  y.kind = kind ∧
+  y.units = (chainUnits chain).getD "" ∧
+  y.hasDefault = (chainDefault chain).isSome ∧ y.default = (chainDefault chain).getD "" ∧
+  y.path = (chainPath chain).getD "" ∧
+  (∀ p, p ∈ y.pattern ↔ p ∈ chainPatterns chain) ∧
+  y.enum = (chainEnums chain).map (fun es => (enumFold newEnum "value" es).1) ∧
+  y.bit = (chainBits chain).map (fun bs => (enumFold newBits "position" bs).1) ∧
+  y.fractionDigits = ((chainFractionDigits chain).map parseFd).getD 0
+
+/-- The union members a resolved type `y` shows of a derivation chain: every member is the
+error-free resolution of a member type statement of one of the chain's type statements, and every
+such statement resolved error-free to a type that is in the list or was left out because a type
+that is `Equal` to it is (Go de-duplicates union members by `YangType.Equal`). -/
+def MembersOf (env : Env) (y : YType) (chain : List Link) : Prop :=
+  (∀ m ∈ y.members, ∃ lroot lscope lt ut fuel' stack', Link.ty lroot lscope lt ∈ chain ∧ ut ∈ lt.all "type" ∧
+      resolveTypeF env fuel' lroot (lt :: lscope) ut stack' = { ty := some m, errs := [] }) ∧
+  (∀ lroot lscope lt, Link.ty lroot lscope lt ∈ chain → ∀ ut ∈ lt.all "type", ∃ fuel' stack' m,
+      resolveTypeF env fuel' lroot (lt :: lscope) ut stack' = { ty := some m, errs := [] } ∧
+      ∃ m' ∈ y.members, m' = m ∨ m.equal m' = true)
+
+set_option linter.unusedSimpArgs false in
+/-- The induction behind `resolve_inherits` and `resolve_members`. -/
+theorem resolve_chain (env : Env) :
+    ∀ (fuel : Nat) (root : Mod) (scope : List Stmt) (t : Stmt) (stack : List TypeKey) (y : YType),
+      scopeKinds.contains t.kw = false →
+      resolveTypeF env fuel root scope t stack = { ty := some y, errs := [] } →
+      ∃ kind chain, DerivesFrom env.reg root scope t kind chain ∧ Inherits y kind chain ∧ MembersOf env y chain := by
+  intro fuel
+  induction fuel with
+  | zero => intro root scope t stack y _ h; simp [resolveTypeF] at h
+  | succ fuel ih =>
+    intro root scope t stack y ht h
+    unfold resolveTypeF at h
+    simp only at h
+    split at h
+    · simp at h
+    · split at h
+      · simp at h
+      · -- a built-in type
+        rename_i y0 hl
+        have hb0 : builtin? t.arg = some y0 := by
+          unfold lookup at hl
+          split at hl
+          · rename_i y' hy; simp only [Bound.builtin.injEq] at hl; rw [← hl]; exact hy
+          · simp only at hl
+            split at hl
+            · split at hl
+              · cases hl
+              · split at hl <;> cases hl
+            · split at hl
+              · cases hl
+              · split at hl <;> cases hl
+        obtain ⟨_, hkind, _, hu, hhd, hd, hp, hpat, hen, hbi, hmem0, hfd⟩ := builtin_shape hb0
+        obtain ⟨a1, a2, a3, a4, a5, a6, a7, a8, a9, _⟩ := overlay_attrs h
+        obtain ⟨m1, m2, _⟩ := level_members h
+        refine ⟨t.arg, [.ty root scope t], DerivesFrom.builtin (builtin_some hb0), ?_, ?_⟩
+        · refine ⟨by rw [a1, hkind], ?_, ?_, ?_, ?_, ?_, ?_, ?_, ?_⟩
+          · rw [a2, hu]; simp [chainUnits]
+          · rw [a3, hhd]; simp [chainDefault]
+          · rw [a4, hd]; simp [chainDefault]
+          · rw [a5, hp]; simp [chainPath]
+          · intro p
+            rw [a6, mem_appendNew, hpat]
+            simp [chainPatterns]
+          · rw [a7, hen]
+            simp only [chainEnums, List.findSome?_cons, List.findSome?_nil]
+            split <;> rename_i he <;> simp [he]
+          · rw [a8, hbi]
+            simp only [chainBits, List.findSome?_cons, List.findSome?_nil]
+            split <;> rename_i he <;> simp [he]
+          · rw [a9, hfd]
+            simp only [chainFractionDigits, List.findSome?_cons, List.findSome?_nil]
+            cases t.one? "fraction-digits" <;> simp
+        · constructor
+          · intro m hm
+            rcases m1 m hm with h0 | ⟨ut, hut, hres⟩
+            · rw [hmem0] at h0; cases h0
+            · exact ⟨root, scope, t, ut, fuel, _, List.mem_singleton.mpr rfl, hut, hres⟩
+          · intro lroot lscope lt hlink ut hut
+            rw [List.mem_singleton] at hlink
+            cases hlink
+            obtain ⟨m, hres, hcov⟩ := m2 ut hut
+            exact ⟨fuel, _, m, hres, hcov⟩
+      · -- derived from a typedef
+        rename_i src r hl
+        split at h
+        · simp at h
+        · rename_i tt htt
+          split at h
+          · rename_i hbase
+            simp only [Res.mk.injEq] at h
+            rw [h.2] at hbase
+            simp at hbase
+          · rename_i hbase
+            split at h
+            · simp at h
+            · rename_i bty hbty
+              have hbase' : resolveTypeF env fuel r.root (r.td :: r.scope) tt (typeKey root t :: stack)
+                  = { ty := some bty, errs := [] } := by
+                have he : (resolveTypeF env fuel r.root (r.td :: r.scope) tt (typeKey root t :: stack)).errs = [] := by
+                  simpa using hbase
+                rw [← he, ← hbty]
+              split at h
+              · rename_i hne
+                simp only [Res.mk.injEq] at h
+                rw [h.2] at hne
+                simp at hne
+              · rename_i htdr
+                split at h
+                · simp at h
+                · rename_i tdY htdY
+                  have htd : typedefOverlay env r.root r.td tt bty = { ty := some tdY, errs := [] } := by
+                    have he : (typedefOverlay env r.root r.td tt bty).errs = [] := by simpa using htdr
+                    rw [← he, ← htdY]
+                  obtain ⟨kind, chain, hder, ⟨hk, hu, hhd, hd, hp, hpat, hen, hbi, hfd⟩, hmA, hmB⟩ :=
+                    ih r.root (r.td :: r.scope) tt _ bty (type_not_scope (kw_of_one htt)) hbase'
+                  obtain ⟨_, b2, b3, b4, b5, b6, b7, b8, b9, b10, b11⟩ := typedefOverlay_ok htd
+                  obtain ⟨a1, a2, a3, a4, a5, a6, a7, a8, a9, _⟩ := overlay_attrs h
+                  obtain ⟨m1, m2, m3⟩ := level_members h
+                  refine ⟨kind, .ty root scope t :: .td r.td :: chain,
+                    DerivesFrom.derived r.root r.td r.scope tt kind chain
+                      (resolve_binds env root scope t ht src r hl) htt hder, ?_, ?_⟩
+                  · refine ⟨by rw [a1, b2, hk], ?_, ?_, ?_, ?_, ?_, ?_, ?_, ?_⟩
+                    · rw [a2, b3, hu]
+                      simp only [chainUnits, List.findSome?_cons]
+                      cases r.td.argOf? "units" <;> simp
+                    · rw [a3, b4, hhd]
+                      simp only [chainDefault, List.findSome?_cons]
+                      cases r.td.argOf? "default" <;> simp
+                    · rw [a4, b5, hd]
+                      simp only [chainDefault, List.findSome?_cons]
+                      cases r.td.argOf? "default" <;> simp
+                    · rw [a5, b6, hp]
+                      simp only [chainPath, List.findSome?_cons]
+                      cases t.argOf? "path" <;> simp
+                    · intro p
+                      rw [a6, mem_appendNew, b7, hpat]
+                      simp only [chainPatterns, List.flatMap_cons, List.mem_append, List.nil_append]
+                      exact Or.comm
+                    · rw [a7, b8, hen]
+                      simp only [chainEnums, List.findSome?_cons]
+                      split <;> rename_i he <;> simp [he]
+                    · rw [a8, b9, hbi]
+                      simp only [chainBits, List.findSome?_cons]
+                      split <;> rename_i he <;> simp [he]
+                    · rw [a9, b11, hfd]
+                      simp only [chainFractionDigits, List.findSome?_cons]
+                      cases t.one? "fraction-digits" <;> simp
+                  · constructor
+                    · intro m hm
+                      rcases m1 m hm with h0 | ⟨ut, hut, hres⟩
+                      · rw [b10] at h0
+                        obtain ⟨lroot, lscope, lt, ut, f', s', hlink, hut, hres⟩ := hmA m h0
+                        exact ⟨lroot, lscope, lt, ut, f', s',
+                          List.mem_cons_of_mem _ (List.mem_cons_of_mem _ hlink), hut, hres⟩
+                      · exact ⟨root, scope, t, ut, fuel, _, List.mem_cons_self, hut, hres⟩
+                    · intro lroot lscope lt hlink ut hut
+                      cases hlink with
+                      | head =>
+                        obtain ⟨m, hres, hcov⟩ := m2 ut hut
+                        exact ⟨fuel, _, m, hres, hcov⟩
+                      | tail _ hlink =>
+                        cases hlink with
+                        | tail _ hlink =>
+                          obtain ⟨f', s', m, hres, m', hm', hcov⟩ := hmB lroot lscope lt hlink ut hut
+                          exact ⟨f', s', m, hres, m', m3 m' (by rw [b10]; exact hm'), hcov⟩
+
+/-- **Derived types inherit the whole chain.**  An error-free resolution of a type statement `t`
+went along a derivation chain in the sense of the specification (every link binds as `Binds`
+says, down to a built-in type), and the resolved type carries the chain's attributes: the base
+kind, and — nearest definition winning — units, default, fraction-digits, enum / bit sets, path;
+patterns accumulate (`Inherits`). -/
+theorem resolve_inherits (env : Env) (fuel : Nat) (root : Mod) (scope : List Stmt) (t : Stmt)
+    (stack : List TypeKey) (y : YType) (ht : scopeKinds.contains t.kw = false)
+    (h : resolveTypeF env fuel root scope t stack = { ty := some y, errs := [] }) :
+    ∃ kind chain, DerivesFrom env.reg root scope t kind chain ∧ Inherits y kind chain := by
+  obtain ⟨kind, chain, hd, hi, _⟩ := resolve_chain env fuel root scope t stack y ht h
+  exact ⟨kind, chain, hd, hi⟩
+
+/-- **Union members** of the chain: the members the resolved type lists are exactly the resolved
+member types of the chain's type statements, up to the de-duplication by `Equal`; each of them is
+itself an error-free resolution, to which `resolve_inherits` and `resolve_members` apply again. -/
+theorem resolve_members (env : Env) (fuel : Nat) (root : Mod) (scope : List Stmt) (t : Stmt)
+    (stack : List TypeKey) (y : YType) (ht : scopeKinds.contains t.kw = false)
+    (h : resolveTypeF env fuel root scope t stack = { ty := some y, errs := [] }) :
+    ∃ kind chain, DerivesFrom env.reg root scope t kind chain ∧ MembersOf env y chain := by
+  obtain ⟨kind, chain, hd, _, hm⟩ := resolve_chain env fuel root scope t stack y ht h
+  exact ⟨kind, chain, hd, hm⟩
+
 end Goyang.Props.C09
